@@ -48,6 +48,10 @@ CONSTANTS
 
 Nil == "nil"
 BadVec == "vbad"     \* a vector of the wrong dimension (offered to VAdd / VEvolve when "vbad" is in Vecs)
+NoVec  == "vnone"    \* no vector at all (offered to VAdd when "vnone" is in Vecs): the engine stores a zero vector of the
+                     \* index's dimension -- and refuses the call while no live vector fixes that dimension
+ZeroVec == "v0"
+StoredVec(vec) == IF vec = NoVec THEN ZeroVec ELSE vec
 Dev(d) == d \in Devs
 \* graph id of a vector node (index::id in the code); other namespaces hold no modelled edges
 GId(n, id) == IF n = GName THEN id ELSE Nil
@@ -439,26 +443,28 @@ ALFires(n, ix, id, um) ==
 VAdd(n, id, vec, um) ==
   LET ix == mem.ix[n]
       m  == StampMeta(ix, MkMeta(um))
-      rec == [op |-> "VAdd", n |-> n, id |-> id, vec |-> vec, meta |-> um] IN
+      rec == [op |-> "VAdd", n |-> n, id |-> id, vec |-> vec, meta |-> um]
+      sv  == StoredVec(vec)
+      refused == vec = BadVec \/ (vec = NoVec /\ Exists(n) /\ LiveIds(ix) = {}) IN
   /\ (vec = BadVec => Exists(n) /\ LiveIds(ix) # {})      \* a wrong-dimension vector is refused once a live vector fixes the dimension
-  /\ IF ~Exists(n) \/ vec = BadVec
+  /\ IF ~Exists(n) \/ refused
      THEN UNCHANGED <<mem, file>> /\ Log(rec @@ [res |-> "err"])
      ELSE IF Live(ix, id)
      THEN /\ Log(rec @@ [res |-> "err"])
           /\ UNCHANGED mem
-          /\ IF Dev("journal_before_validate") THEN Journal(<<CAdd(n, id, vec, m)>>) ELSE UNCHANGED file
+          /\ IF Dev("journal_before_validate") THEN Journal(<<CAdd(n, id, sv, m)>>) ELSE UNCHANGED file
      ELSE /\ Len(ix.nodes) < MaxCtr
           /\ IF ALFires(n, ix, id, um)
              THEN LET ts == clock + 1
                       g1 == LinkG(G(mem), id, um["k"], ALRel, Nil, "w1", Nil, ts) IN
-                  /\ mem' = [mem EXCEPT !.ix[n] = IxAdd(ix, id, vec, m), !.out = g1.out, !.in = g1.in]
-                  /\ Journal(<<CAdd(n, id, vec, m), CLink(id, um["k"], ALRel, Nil, "w1", Nil, ts)>>)
-             ELSE /\ SetIx(n, IxAdd(ix, id, vec, m))
-                  /\ Journal(<<CAdd(n, id, vec, m)>>)
+                  /\ mem' = [mem EXCEPT !.ix[n] = IxAdd(ix, id, sv, m), !.out = g1.out, !.in = g1.in]
+                  /\ Journal(<<CAdd(n, id, sv, m), CLink(id, um["k"], ALRel, Nil, "w1", Nil, ts)>>)
+             ELSE /\ SetIx(n, IxAdd(ix, id, sv, m))
+                  /\ Journal(<<CAdd(n, id, sv, m)>>)
           /\ Log(rec @@ [res |-> "ok"])
-  /\ clock' = IF Exists(n) /\ vec # BadVec /\ ~Live(ix, id) /\ ALFires(n, ix, id, um) THEN clock + 1 ELSE clock
+  /\ clock' = IF Exists(n) /\ ~refused /\ ~Live(ix, id) /\ ALFires(n, ix, id, um) THEN clock + 1 ELSE clock
   /\ dev' = IF Exists(n) /\ Live(ix, id) /\ Dev("journal_before_validate") THEN dev \cup {"journal_before_validate"} ELSE dev
-  /\ delat' = IF Exists(n) /\ vec # BadVec /\ ~Live(ix, id) /\ GId(n, id) \in GNodes THEN [delat EXCEPT ![GId(n, id)] = 0] ELSE delat
+  /\ delat' = IF Exists(n) /\ ~refused /\ ~Live(ix, id) /\ GId(n, id) \in GNodes THEN [delat EXCEPT ![GId(n, id)] = 0] ELSE delat
   /\ UNCHANGED <<snap, dirty>>
 
 \* VAddBatch of two items (ids may coincide, may already exist): all-or-nothing
@@ -467,7 +473,7 @@ VAddBatch(n, id1, v1, id2, v2, um) ==
       m  == StampMeta(ix, MkMeta(um))
       rec == [op |-> "VAddBatch", n |-> n, id1 |-> id1, v1 |-> v1, id2 |-> id2, v2 |-> v2, meta |-> um]
       bad == Live(ix, id1) \/ Live(ix, id2) \/ id1 = id2 IN
-  /\ v1 # BadVec /\ v2 # BadVec
+  /\ v1 \notin {BadVec, NoVec} /\ v2 \notin {BadVec, NoVec}
   /\ IF ~Exists(n)
      THEN UNCHANGED <<mem, file>> /\ Log(rec @@ [res |-> "err"])
      ELSE IF bad
@@ -600,7 +606,7 @@ VImport(n, id1, v1, id2, v2, um) ==
       m  == StampMeta(ix, MkMeta(um))
       rec == [op |-> "VImport", n |-> n, id1 |-> id1, v1 |-> v1, id2 |-> id2, v2 |-> v2, meta |-> um]
       bad == Live(ix, id1) \/ Live(ix, id2) \/ id1 = id2 IN
-  /\ v1 # BadVec /\ v2 # BadVec
+  /\ v1 \notin {BadVec, NoVec} /\ v2 \notin {BadVec, NoVec}
   /\ IF ~Exists(n) \/ bad
      THEN UNCHANGED <<mem, dirty, delat>> /\ Log(rec @@ [res |-> "err"])
      ELSE /\ Len(ix.nodes) + 1 < MaxCtr
@@ -623,7 +629,7 @@ IncomingActive(g, x) == {e \in g.out : e.d = 0 /\ e.t = x}
 VEvolve(n, old, new, vec, um) ==
   LET ix == mem.ix[n]
       rec == [op |-> "VEvolve", n |-> n, old |-> old, new |-> new, vec |-> vec, meta |-> um] IN
-  /\ n = GName /\ old \in GNodes /\ new \in GNodes /\ old # new
+  /\ n = GName /\ old \in GNodes /\ new \in GNodes /\ old # new /\ vec # NoVec
   /\ IF ~Exists(n) \/ ~Live(ix, old) \/ vec = BadVec
      THEN UNCHANGED <<mem, file, clock, delat>> /\ Log(rec @@ [res |-> "err"])
      ELSE LET ts == clock + 1
